@@ -32,6 +32,7 @@ import (
 	"github.com/99designs/gqlgen/graphql/handler/transport"
 	"github.com/gorilla/websocket"
 	"github.com/vektah/gqlparser/v2/ast"
+	"github.com/vektah/gqlparser/v2/lexer"
 
 	"verif/internal/ev"
 	"verif/internal/opgen"
@@ -103,6 +104,7 @@ type config struct {
 	DisableSuggestion bool    `json:"disable_suggestion"`
 	HTTP              bool    `json:"http"`
 	WS                bool    `json:"websocket"` // with HTTP: requests travel as graphql-transport-ws subscribe messages
+	TokenLimit        int     `json:"parser_token_limit,omitempty"`
 }
 
 type reqCtx struct {
@@ -150,6 +152,9 @@ func newServer(cfg config) *server {
 		s.hs.AddTransport(transport.POST{})
 		s.hs.SetQueryCache(s.cache)
 		s.hs.SetDisableSuggestion(cfg.DisableSuggestion)
+		if cfg.TokenLimit > 0 {
+			s.hs.SetParserTokenLimit(cfg.TokenLimit)
+		}
 		s.hs.SetRecoverFunc(rf)
 		for _, x := range cfg.Exts.build() {
 			s.hs.Use(x)
@@ -159,6 +164,9 @@ func newServer(cfg config) *server {
 	s.exec = executor.New(s.env.ES)
 	s.exec.SetQueryCache(s.cache)
 	s.exec.SetDisableSuggestion(cfg.DisableSuggestion)
+	if cfg.TokenLimit > 0 {
+		s.exec.SetParserTokenLimit(cfg.TokenLimit)
+	}
 	s.exec.SetRecoverFunc(rf)
 	for _, x := range cfg.Exts.build() {
 		s.exec.Use(x)
@@ -329,6 +337,58 @@ func (s *server) runWS(id string, payload map[string]any, out *outcome) {
 	out.body = strings.Join(frames, "\n")
 	// the operation goroutine may still be winding down after its complete frame
 	c.WriteMessage(websocket.CloseMessage, websocket.FormatCloseMessage(websocket.CloseNormalClosure, ""))
+}
+
+// tokensOf counts the lexical tokens of a document with gqlparser's lexer (comments excluded).
+func tokensOf(q string) int {
+	lx := lexer.New(&ast.Source{Input: q})
+	n := 0
+	for {
+		t, err := lx.ReadToken()
+		if err != nil || t.Kind == lexer.EOF {
+			return n
+		}
+		if t.Kind != lexer.Comment {
+			n++
+		}
+	}
+}
+
+func tokenLimitStage(probes []string, r *rand.Rand) {
+	for pi, p := range probes {
+		ks := famByProbe[p]
+		if len(ks) == 0 {
+			continue
+		}
+		for rep2 := 0; rep2 < ev.Pick(2, 8); rep2++ {
+			k := ks[r.Intn(len(ks))]
+			fe := families[k]
+			v := fe.fam.Valid[0]
+			n := tokensOf(v.Query)
+			if n < 8 {
+				continue
+			}
+			for li, lim := range []int{n / 2, 3, 4*n + 16} {
+				for _, cache := range []string{"none", "lru1000"} {
+					cfg := config{Probe: p, Cache: cache, Exts: extList{63}, HTTP: (pi+li)%2 == 1, TokenLimit: lim}
+					s := newServer(cfg)
+					want := *v
+					want.Name = fmt.Sprintf("token-limit-%d-of-%d-tokens", lim, n)
+					if lim < n {
+						want.Stage = "parse"
+						want.Name = "over-" + want.Name
+					}
+					h := &history{Probe: p, OpSeed: k.opSeed, Kind: fe.kind, HSeed: int64(lim), Steps: []step{{V: &want}, {V: &want}}, PlanVal: fe.plan}
+					runHistory(s, h, "token-limit")
+					s.harvest()
+					rep.Count("token_limit_cases", 1)
+					if lim < n {
+						rep.Count("token_limit_cases_over_limit", 1)
+					}
+				}
+			}
+		}
+	}
 }
 
 // agg batches counters of one history so 16 clients do not serialise on the reporter's mutex.
@@ -774,6 +834,11 @@ func main() {
 		rep.Distinct("extension_lists", cfg.Exts.String())
 	}
 	lap("websocket_sequential")
+
+	// 4c. the configured parser token limit is part of parsing: a document with more tokens than
+	// the limit is refused like any other unparsable document, one with clearly fewer is served
+	tokenLimitStage(probes, r)
+	lap("token_limit")
 
 	// 5. 16 concurrent clients on one server (no MapCache: documented as not safe for that)
 	concCaches := []string{"none", "lru1", "lru2", "lru1000"}
